@@ -266,6 +266,40 @@ def _det(c, build):
     return m.rc_model, True
 
 
+def _layer(c, cls, build):
+    """a deterministic model on lp.Model / socp.Model / gcp.Model used directly"""
+    m = cls()
+    x = m.dvar(2)
+    cost = sym_array(c, (2,), "c")
+    m.min(cost @ x)
+    for k in build(c, m, x):
+        m.st(k)
+    m.do_math()
+    return m, True
+
+
+@conic("socp.Model-norm2-and-rows")
+def _(c):
+    k = c.fresh_real("k")
+    c.assume(k > 0)
+    return _layer(c, socp.Model, lambda c, m, x: [k * rsome.norm(_lin(c, x, 2, "in"), 2) <= c.fresh_real("e"), x[0] + 2 * x[1] <= c.fresh_real("f"), x[1] >= 0])
+
+
+@conic("socp.Model-square")
+def _(c):
+    return _layer(c, socp.Model, lambda c, m, x: [rsome.square(_lin(c, x, 2, "in")) <= c.fresh_real("d") * x + c.fresh_real("e")])
+
+
+@conic("lp.Model-norm1")
+def _(c):
+    return _layer(c, lp.Model, lambda c, m, x: [rsome.norm(_lin(c, x, 2, "in"), 1) <= c.fresh_real("e"), x[0] <= c.fresh_real("u")])
+
+
+@conic("gcp.Model-exp-norm2")
+def _(c):
+    return _layer(c, gcp.Model, lambda c, m, x: [rsome.exp(x[0]) <= c.fresh_real("g"), rsome.norm(x, 2) <= c.fresh_real("e")])
+
+
 @conic("det-norm2")
 def _(c):
     def build(c, m, x):
@@ -501,7 +535,11 @@ def conic_dual(name):
     obs, _ = check_function("rsome.gcp:Model.do_math(primal=False)", setup,
                             lambda ns: ns["layer"].do_math(primal=False, obj=ns["obj"]), conic_clauses(),
                             mode="D", label=name, bounded=True, max_paths=600)
-    return obs
+    # asked for a second time on the unchanged model, the dual is still the dual
+    obs2, _ = check_function("rsome.gcp:Model.do_math(primal=False)", setup,
+                             lambda ns: (ns["layer"].do_math(primal=False, obj=ns["obj"]), ns["layer"].do_math(primal=False, obj=ns["obj"]))[1],
+                             conic_clauses(), mode="D", label=name + ",second request", bounded=True, max_paths=600)
+    return obs + obs2
 
 
 def frontend_dual_after_modification():
